@@ -190,6 +190,49 @@ def run(chk: core.Check, replay=None) -> None:
             level = sc["shot"]["look_deg"] == 0.0
             pair(res["tail"], "C12.Signs", same_d and opp(t["tail"], t["head"], t0) and (not level or opp(h["tail"], h["head"], h0)),
                  what="head and tail winds move drop and time of flight in opposite senses", partner=none["tid"])
+    # ---- the wind list of a shot that has ALREADY been fired is edited in place (the Wind objects trade until-distances, so
+    #      their order by distance changes; a segment is moved in front of / behind the others): the next fire of the same shot
+    #      follows the list as it stands - what a freshly built shot with equal winds gives
+    import py_ballisticcalc as m
+    U = m.Unit
+    for i in range(24 if thorough else 6):
+        core.reset_world()
+        pbase = shots.gen_shot(rng, winds=0, spin=False, look=0.0)
+        spec_w = [[rng.choice([10.0, 20.0]), 90.0, 300.0], [rng.choice([15.0, 25.0]), 270.0, 800.0], [12.0, 0.0, 1500.0]][: 2 + i % 2]
+
+        def mk(spec):
+            ws = [m.Wind(U.MPH(a), U.Degree(b), U.Yard(c)) for a, b, c in spec]
+            sh = shots.build_shot(dict(pbase, winds=[]))
+            if i % 2:
+                sh.winds = ws
+            else:
+                sh = m.Shot(sh.weapon, sh.ammo, atmo=sh.atmo, winds=ws)
+            return sh, ws
+        rows_of = lambda sh: [scen.row_fp(r) for r in shots.build_calc({"max_calc_step_size_feet": 2.0}).fire(sh, U.Yard(1000), U.Yard(100)).trajectory]
+        shot1, ws1 = mk(spec_w)
+        before = rows_of(shot1)
+        kind = i % 3
+        if kind == 0:      # first and second trade their ends
+            ws1[0].until_distance, ws1[1].until_distance = ws1[1].until_distance, ws1[0].until_distance
+            now = [[spec_w[0][0], spec_w[0][1], spec_w[1][2]], [spec_w[1][0], spec_w[1][1], spec_w[0][2]]] + spec_w[2:]
+        elif kind == 1:    # the nearest segment is moved behind all the others
+            ws1[0].until_distance = U.Yard(2000)
+            now = [[spec_w[0][0], spec_w[0][1], 2000.0]] + spec_w[1:]
+        else:              # the farthest segment is moved in front, given in another unit
+            ws1[-1].until_distance = U.Meter(150)
+            now = spec_w[:-1] + [[spec_w[-1][0], spec_w[-1][1], 150.0 / 0.9144]]
+        after = rows_of(shot1)
+        fresh_shot, _ = mk(now)
+        if kind == 2:
+            fresh_shot.winds[0].until_distance = U.Meter(150)
+        fresh = rows_of(fresh_shot)
+        chk.count(1, ("edited-winds", i))
+        chk.stratum("wind_ends_edited_in_place_after_a_fire")
+        if after != fresh:
+            first = next((j for j, (a_, b_) in enumerate(zip(after, fresh)) if a_ != b_), None)
+            chk.violation("C12.EditedWindListNotFollowed", {"source": "edited-winds", "kind": ["ends-traded", "first-moved-behind", "last-moved-in-front"][kind],
+                                                            "via_setter": bool(i % 2)},
+                          {"winds_before": spec_w, "winds_now": now, "first_differing_row": first, "unchanged_by_the_edit": after == before})
     by_tid = loopsuite.validate(chk, "C12", outs, pairs)
     for o in outs:
         if o["tid"] in by_tid and o.get("pair_info"):
@@ -198,7 +241,7 @@ def run(chk: core.Check, replay=None) -> None:
         (l for l in outs[0]["lines"] if l["ev"] == "Iter"), None)})
     chk.sample({"pair_lines": pairs[:3]})
     chk.sample({"tlc_behaviour": {k: v for k, v in behs[0].items() if k != "consts"}})
-    chk.require_strata(["lone_wind_with_finite_end", "default_wind_of_another_shot_edited", "obj_duplicate_wind_ends", "duplicate_until", "zero_until", "switch_inside_range", "pair_OrderInsensitive",
+    chk.require_strata(["wind_ends_edited_in_place_after_a_fire", "lone_wind_with_finite_end", "default_wind_of_another_shot_edited", "obj_duplicate_wind_ends", "duplicate_until", "zero_until", "switch_inside_range", "pair_OrderInsensitive",
                         "pair_Causal", "pair_Mirror", "mirror_with_spin", "pair_ZeroWindEqualsNoWind", "pair_Signs"])
     chk.exhaustive = False
     chk.rule.append("design: Integrator.tla (C12_SegmentByPosition) on wind-end lists with duplicates, zeros and ends beyond range; "
